@@ -90,6 +90,40 @@ impl SnmpOid<'_> {
     pub fn starts_with(&self, oid: &SnmpOid) -> bool {
         oid.0.starts_with(&self.0)
     }
+    // Compare as the sequences of sub-identifiers (lexicographic order of the MIB)
+    pub fn cmp_subids(&self, oid: &SnmpOid) -> std::cmp::Ordering {
+        let mut left = SubIdIterator(self.0.iter());
+        let mut right = SubIdIterator(oid.0.iter());
+        loop {
+            match (left.next(), right.next()) {
+                (None, None) => return std::cmp::Ordering::Equal,
+                (None, Some(_)) => return std::cmp::Ordering::Less,
+                (Some(_), None) => return std::cmp::Ordering::Greater,
+                (Some(x), Some(y)) if x != y => return x.cmp(&y),
+                _ => {}
+            }
+        }
+    }
+}
+
+// Iterate over the values of base-128 encoded sub-identifiers
+struct SubIdIterator<'a>(core::slice::Iter<'a, u8>);
+
+impl Iterator for SubIdIterator<'_> {
+    type Item = u64;
+
+    fn next(&mut self) -> Option<Self::Item> {
+        let mut v = 0u64;
+        let mut seen = false;
+        for c in self.0.by_ref() {
+            seen = true;
+            v = v.saturating_mul(128).saturating_add((c & 0x7f) as u64);
+            if c & 0x80 == 0 {
+                break;
+            }
+        }
+        seen.then_some(v)
+    }
 }
 
 struct OidSubelementIterator<'a>(core::str::Split<'a, &'a str>);
